@@ -1420,6 +1420,25 @@ void chk_remove(char const *kn, C &c, seq const &r)
     expect(got, want.size() != r.size(), "remove", kn, "result", par("value+1", static_cast<unsigned>(v + 1)));
   }
   VF_COUNT("judged/remove");
+  // the value may be a reference INTO the container that is being modified (the parameter is the container's own
+  // const_reference): remove(d, d[i]) must remove every element equal to the value d[i] had at the call
+  for (std::size_t i = 0; i < r.size(); ++i)
+  {
+    vf::operands(static_cast<long long>(i));
+    C d(c);
+    auto it = d.begin();
+    std::advance(it, static_cast<std::ptrdiff_t>(i));
+    int const v = *it;
+    lib();
+    bool const got = fcppt::algorithm::remove(d, *it);
+    seq want;
+    for (int e : r)
+      if (e != v)
+        want.push_back(e);
+    VF_COUNT("remove/value-aliases-element");
+    expect(to_seq(d), want, "remove", kn, "final-state-aliased-value", par("index", static_cast<unsigned>(i)));
+    expect(got, true, "remove", kn, "result-aliased-value", par("index", static_cast<unsigned>(i)));
+  }
   for (unsigned p = 0; p < 8; ++p)
   {
     vf::operands(p);
@@ -2792,7 +2811,7 @@ void body()
         "index_of/found-at-last", "index_of/found-before-last", "sorted_search/sorted-input",
         "sorted_search/unsorted-but-partitioned-input", "binary_search/exactly-one", "binary_search/duplicates",
         "binary_search/absent", "map_optional/all-dropped", "map_optional/all-kept", "map_optional/some-dropped",
-        "map_concat/all-parts-empty", "remove/nothing-removed", "remove/everything-removed", "remove/some-removed",
+        "map_concat/all-parts-empty", "remove/nothing-removed", "remove/everything-removed", "remove/some-removed", "remove/value-aliases-element",
         "unique/nothing-removed", "unique/something-removed", "repeat/zero-or-negative-count",
         "sequence_iteration/last-element-erased", "sequence_iteration/all-erased", "map_iteration/last-element-erased",
         "map_iteration/all-erased", "split_string/empty-string", "split_string/no-delimiter",
